@@ -16,6 +16,20 @@ between sibling properties, allOf merge conflicts other than primitive type clas
 from __future__ import annotations
 import copy
 
+# Does UnionProperty.build hand `roots` down to its members?  Read from the code under verification (a regenerated fact): the
+# unchanged tree does not (finding union_dependency_unrecorded); with fixes/C08_union_roots.diff applied it does, and the
+# abstraction then records union-member edges like every other edge.  Set to True / False to override the detection.
+UNION_ROOTS_RECORDED = None
+
+
+def union_roots_recorded():
+    if UNION_ROOTS_RECORDED is not None:
+        return UNION_ROOTS_RECORDED
+    import inspect
+    from openapi_python_client.parser.properties.union import UnionProperty
+    return "roots" in inspect.signature(UnionProperty.build).parameters
+
+
 CAT = {"intrinsic": 1, "ref_missing": 2, "dup": 3, "enum_conflict": 4, "allof_missing": 5, "allof_nonobject": 6,
        "allof_unprocessed": 7, "recursive": 8, "reference_schema": 9, "union": 10}
 CAT_NAME = {v: k for k, v in CAT.items()}
@@ -73,6 +87,7 @@ class Abs:
         self.cls: dict[str, int] = {}       # class names -> id
         self.vals: dict = {}                # enum value tables -> id
         self.imprecise: list[str] = []
+        self.union_roots = union_roots_recorded()
         self.nodes = []                     # dicts: ref, name, isref, top, create, entries, kind
         comps = ((doc.get("components") or {}).get("schemas")) or {}
         self.raw = comps
@@ -226,7 +241,7 @@ class Abs:
         if isinstance(data.type, list):
             for t in data.type:
                 members.append(data.model_copy(update={"type": t, "default": None}))
-        uctx = ctx.evolve(roots=[], process=True, kind="union_member", ovr=CAT["union"], udepth=ctx.udepth + 1)
+        uctx = ctx.evolve(roots=(list(ctx.roots) if self.union_roots else []), process=True, kind="union_member", ovr=CAT["union"], udepth=ctx.udepth + 1)
         for i, m in enumerate(members):
             self.walk(f"{name}_type_{i}", m, uctx.evolve(direct=True), parent_name, prog)
         if data.default is not None:
